@@ -381,7 +381,7 @@ def stream_walk(ctx):
         metas.append(meta)
     ctx.stat('walk', stats)
     fn = "(fun c => items_eqb (walk %s (fst c)) (snd c))" % g_str(FAKE_ROOT)
-    fails, err = yield (fn, cases, 25, DEFS)
+    fails, err = yield (fn, cases, 50, DEFS)
     if err:
         raise RuntimeError('coq evaluation failed (walk): ' + err)
     for i in fails[:5]:
@@ -447,7 +447,7 @@ def stream_gitignore(ctx):
     fn = ("(fun c => let '(t, oa, orl) := c in let es := parse_gitignore t in "
           "seteq (abs_of %s es) oa && seteq (map snd (rel_of %s es)) (map snd orl) "
           "&& forallb (fun p => str_eqb (fst p) %s) orl)" % (d, d, d))
-    fails, err = yield (fn, cases, 400, DEFS)
+    fails, err = yield (fn, cases, 600, DEFS)
     if err:
         raise RuntimeError('coq evaluation failed (gitignore): ' + err)
     for m in [m for m in metas if not m['oracle_ok']][:3]:
@@ -494,7 +494,7 @@ def stream_expand(ctx):
                                            g_list(obs, g_str, 'str')))
             metas.append(dict(cur=cur, rel=rel, observed=obs, oracle=sorted(exp), oracle_ok=ok))
     fn = "(fun c => let '(cur, rel, obs) := c in seteq (expand true cur rel) obs)"
-    fails, err = yield (fn, cases, 1500, DEFS)
+    fails, err = yield (fn, cases, 2100, DEFS)
     if err:
         raise RuntimeError('coq evaluation failed (expand): ' + err)
     for m in [m for m in metas if not m['oracle_ok']][:3]:
@@ -644,7 +644,7 @@ def stream_limits(ctx):
     finally:
         references._check_fs = orig
     fn = "(fun c => ns_eqb (map fst (search_in_file_ios snd (enum_from 0 (fst c)))) (snd c))"
-    fails, err = yield (fn, cases, 60, DEFS + ENUM_DEF)
+    fails, err = yield (fn, cases, 70, DEFS + ENUM_DEF)
     if err:
         raise RuntimeError('coq evaluation failed (limits): ' + err)
     for m in [m for m in metas if not m['oracle_ok']][:3]:
@@ -827,7 +827,7 @@ def stream_script(ctx):
             metas.append([t[3] for t in per[sc_all]])
     fn = ("(fun c => forallb (fun x => let '(cpl, q, ids) := x in match script_search cpl q (fst c) with "
           "Some r => ns_eqb (map n_id r) ids | None => false end) (snd c))")
-    fails, err = yield (fn, cases, 12, DEFS)
+    fails, err = yield (fn, cases, 40, DEFS)
     if err:
         raise RuntimeError('coq evaluation failed (script): ' + err)
     for i in fails[:5]:
@@ -1018,8 +1018,8 @@ def check_search(ctx, root, srcs, exp, q, sc_all, complete, hits, tree_meta):
             if name_ok(key[-1], last, False):
                 for f in INITS:
                     allowed.add((rel + '/' + f, 1, 0, key[-1], 'module'))
-            if not name_ok(key[-1], last, True):
-                continue
+            if not name_ok(key[-1], last, True) or not key[-1].isidentifier():
+                continue     # a folder like `zq_igd.x` is no package: it cannot be imported or named in a search string
             if inits:
                 if ty in ('', 'module') and not any(h[0] in {rel + '/' + f for f in inits} and h[3] == key[-1] and h[4] == 'module'
                                                     for h in hits):
@@ -1145,7 +1145,7 @@ def drive(ctx, streams):
     def ev(p):
         fn, cases, shard, defs = p[2]
         t0 = time.time()
-        r = common.coq_failing(IMPORTS, fn, cases, shard=shard, defs=defs)
+        r = common.coq_failing(IMPORTS, fn, cases, shard=shard, defs=defs, timeout=2400)
         ctx.stat('wall_coq_' + p[0].__name__, round(time.time() - t0, 1))
         return r
     with ThreadPoolExecutor(max_workers=max(1, len(pending))) as ex:
